@@ -1,6 +1,7 @@
 use crate::engine::Ctx;
 
 pub mod c07;
+pub mod c08;
 pub mod c09;
 pub mod c10;
 pub mod c11;
@@ -8,6 +9,7 @@ pub mod c11;
 pub fn run(ctx: &Ctx) -> i32 {
     match ctx.prop.as_str() {
         "C07" => c07::run(ctx),
+        "C08" => c08::run(ctx),
         "C09" => c09::run(ctx),
         "C10" => c10::run(ctx),
         "C11" => c11::run(ctx),
@@ -32,6 +34,7 @@ pub fn replay(ctx: &Ctx, path: &str) -> i32 {
     };
     match ctx.prop.as_str() {
         "C07" => c07::replay(ctx, &body),
+        "C08" => c08::replay(ctx, &body),
         "C09" => c09::replay(ctx, &body),
         "C10" => c10::replay(ctx, &body),
         "C11" => c11::replay(ctx, &body),
@@ -42,6 +45,16 @@ pub fn replay(ctx: &Ctx, path: &str) -> i32 {
     }
 }
 
-pub fn worker(_args: &[String]) -> i32 {
-    2
+/// `vcheck --worker <prop> <space> <lo> <hi> <careful|fast> [extra...]` (child process of engine::run_isolated)
+pub fn worker(args: &[String]) -> i32 {
+    match args.first().map(|s| s.as_str()) {
+        Some("C08") => {
+            if args.get(1).map(|s| s.as_str()) == Some("@file") {
+                c08::worker_file(args.get(2).map(|s| s.as_str()).unwrap_or(""))
+            } else {
+                c08::worker(&args[1..])
+            }
+        }
+        _ => 2,
+    }
 }
